@@ -217,6 +217,9 @@ pub enum Op {
     /// message operation through strong slot `h`
     Send { h: usize, how: How, msg: Msg },
     Stop { h: usize },
+    /// stop() wrapped in a caller-side `tokio::time::timeout`: the call is abandoned (its future
+    /// dropped) if it has not returned after `t`
+    StopT { h: usize, t: Ms },
     Kill { h: usize },
     /// clone strong slot h into a new strong slot
     Clone { h: usize },
